@@ -137,6 +137,23 @@ class Gen:
             o.update(ct="text/x", rt="reply/" + c, cd="cd" + o["m"], up=[["k1", "v1"], ["k1", "v2"]][: self.r.randint(1, 2)])
         if self.ver[k] == 5 and p.get("mei"):
             o["mei"] = self.r.choice(p["mei"])
+        if p.get("pad") and self.r.random() < p["pad"]:
+            o["pad"] = self.r.choice(p.get("pads", [40, 200]))
+        if self.ver[k] == 5 and p.get("in_alias") and self.r.random() < p["in_alias"]:
+            # inbound aliases: bind, reuse (empty topic), rebind, and the two invalid uses
+            kind = self.r.choice(["bind", "bind", "use", "use", "unbound", "toobig"])
+            bound = self.__dict__.setdefault("bound", {}).setdefault(k, {})
+            if kind == "bind":
+                a = self.r.randint(1, p.get("alias_max", 2))
+                o["alias"] = a
+                bound[a] = t
+            elif kind == "use" and bound:
+                a = self.r.choice(sorted(bound))
+                o.update(alias=a, notopic=True, t=bound[a])
+            elif kind == "unbound":
+                o.update(alias=p.get("alias_max", 2), notopic=True) if p.get("alias_max", 2) not in bound else None
+            elif kind == "toobig":
+                o["alias"] = p.get("alias_max", 2) + 1
         o.update(kw)
         self.ops.append(o)
         if q == 2 and self.r.random() < p.get("p_rel", 1.0):
